@@ -60,3 +60,25 @@ Lemma stop_receiving_keeps_transmission s :
   sender_core (stop_receiving s) = sender_core s /\ limiter_part (stop_receiving s) = limiter_part s /\
   rx_queue (stop_receiving s) = rx_queue s.
 Proof. unfold stop_receiving, stop_sending_fc. cbn. repeat split. Qed.
+
+(** ** The deadline itself is not yet missed *)
+
+(** A running timer with a non-zero timeout expires when MORE than the timeout has elapsed: a frame (or Flow Control) processed
+    exactly [timeout] after the start is still in time, one nanosecond later it is not. *)
+Lemma timer_boundary nw t s :
+  t_start t = Some s -> 0 < t_timeout t ->
+  (timer_timed_out nw t = true <-> t_timeout t < nw - s).
+Proof.
+  intros Hs Hpos. unfold timer_timed_out. rewrite Hs.
+  destruct (Z.ltb_spec (t_timeout t) (nw - s)); destruct (Z.eqb_spec (t_timeout t) 0); cbn; split; intros; try lia; try discriminate; auto.
+Qed.
+
+Lemma timer_on_deadline t s :
+  t_start t = Some s -> 0 < t_timeout t ->
+  timer_timed_out (s + t_timeout t) t = false /\ timer_timed_out (s + t_timeout t + 1) t = true.
+Proof.
+  intros Hs Hpos. split.
+  - destruct (timer_timed_out (s + t_timeout t) t) eqn:E; [|reflexivity].
+    apply (timer_boundary _ _ _ Hs Hpos) in E. lia.
+  - apply (timer_boundary _ _ _ Hs Hpos). lia.
+Qed.
